@@ -33,3 +33,59 @@ def forwarding(ctx, clause, label, param_pred, source_nodes, skip_modules=(), sk
                                   "`%s` is supplied from the configured %s" % (prm, label) if ok else
                                   "`%s=%s` does not originate from the configured %s" % (prm, norm(arg)[:40], label)))
     return obs, n
+
+
+# call sites that legitimately do not forward a constructor option to a parameter of the same name (confirmed by reading)
+OPTION_SITE_EXCEPTIONS = {
+    "target_classes|get_instance_tracker->InstanceTracker.__init__":
+        "the tracker receives the classes converted to model IRIs (a derived value, not the raw list)",
+    "raw_graph|MultiBigTtlTriplesYielder._constructor_file_yielder->BigTtlTriplesYielder.__init__": "per-file reader of a list of files: there is no raw graph",
+    "raw_graph|MultiNtTriplesYielder._constructor_file_yielder->NtTriplesYielder.__init__": "per-file reader of a list of files: there is no raw graph",
+    "raw_graph|MultiRdfLibTripleYielder._constructor_file_yielder->RdflibParserTripleYielder.__init__": "per-file reader of a list of files: there is no raw graph",
+    "raw_graph|MultiTsvNtTriplesYielder._constructor_file_yielder->TsvNtTriplesYielder.__init__": "per-file reader of a list of files: there is no raw graph",
+    "raw_graph|EndpointSGraph.__init__->RdflibSgraph.__init__": "the endpoint graph keeps a local cache graph of its own, not the user's input",
+    "rdflib_graph|RdflibParserTripleYielder.__init__->RdflibTripleYielder.__init__": "the parsing reader builds its graph lazily (None until parsed)",
+    "rdflib_graph|RdflibParserTripleYielder._get_tmp_graph->RdflibParserTripleYielder._parse_compressed_files": "the freshly created graph being filled",
+    "rdflib_graph|EndpointSGraph.__init__->RdflibSgraph.__init__": "the endpoint graph keeps a local cache graph of its own",
+    "rdflib_graph|_get_adequate_sgraph->RdflibSgraph.__init__": "shape-map selection over an in-memory rdflib graph is not supported by the factory "
+                                                               "(the C20 source-coverage finding records the late failure)",
+    "namespaces_dict|AbstractShexingStrategy._group_constraints_with_same_prop_and_obj->MergeableConstraints.__init__":
+        "groups of equal (property, object): merge_group - the only reader of the dictionary - is never called on them",
+    "namespaces_dict|MultiRdfLibTripleYielder._constructor_file_yielder->RdflibParserTripleYielder.__init__":
+        "per-file reader: prefixes of the files are integrated by the multi-file reader itself",
+    "instantiation_property|get_uml_serializer->UMLSerializer.__init__": "UML output is outside the properties",
+    "namespaces_to_ignore|MultiBigTtlTriplesYielder.__init__->MultifileBaseTripleYielder.__init__": "the filter is a wrapper applied by the factory around the reader",
+    "namespaces_to_ignore|MultiNtTriplesYielder.__init__->MultifileBaseTripleYielder.__init__": "the filter is a wrapper applied by the factory around the reader",
+    "namespaces_to_ignore|MultiRdfLibTripleYielder.__init__->MultifileBaseTripleYielder.__init__": "the filter is a wrapper applied by the factory around the reader",
+    "namespaces_to_ignore|MultiTsvNtTriplesYielder.__init__->MultifileBaseTripleYielder.__init__": "the filter is a wrapper applied by the factory around the reader",
+    "namespaces_to_ignore|Shaper._build_instance_tracker->get_instance_tracker": "class membership is read from the full graph (C16): the tracker must not be filtered",
+    "namespaces_to_ignore|get_instance_tracker->get_triple_yielder": "forwards its own parameter, which the Shaper leaves at None on purpose (C16)",
+    "all_classes_mode|get_shape_map_if_needed->produce_shape_map_according_to_input": "only called with an explicit shape map: the all-classes branch is not involved",
+    "shape_map_format|get_class_profiler->get_triple_yielder": "the shape map is already built and passed as an object",
+    "shape_map_format|get_instance_tracker->get_triple_yielder": "the shape map is already built and passed as an object",
+    "shape_map_format|get_triple_yielder->_yielder_for_url_endpoint": "forwards its own parameter (see above)",
+    "compression_mode|_yielder_for_url_input->MultiRdfLibTripleYielder.__init__": "remote sources are never compressed (rejected by the constructor)",
+    "compression_mode|MultiRdfLibTripleYielder.__init__->MultifileBaseTripleYielder.__init__": "the rdflib multi-file reader hands the mode to the per-file readers itself",
+    "compression_mode|_yielder_for_url_input->RdflibParserTripleYielder.__init__": "remote sources are never compressed (rejected by the constructor)",
+}
+
+
+def all_options(ctx, clause, api="shexer.shaper:Shaper.__init__", skip=()):
+    """Same-name convention of the package: a function that has a parameter named like a constructor option carries that
+    option.  Every API-reachable call site passes it explicitly, with a value that is (a copy of) the configured one."""
+    g, p = ctx.flow, ctx.p
+    init = p.func(api)
+    obs, n = [], 0
+    for opt in init.bound_params:
+        if opt in skip:
+            continue
+        src = [g.param(init.qual, opt)]
+        o, k = forwarding(ctx, clause, opt, lambda prm, opt=opt: prm == opt, src, skip_funcs={init.qual})
+        n += k
+        for x in o:
+            tail = x.key.split("|", 1)[1]
+            if not x.ok and tail in OPTION_SITE_EXCEPTIONS:
+                x.ok = True
+                x.msg = "frozen exception: " + OPTION_SITE_EXCEPTIONS[tail] + " [was: " + x.msg + "]"
+        obs += o
+    return obs, n
